@@ -133,6 +133,38 @@ class Chooser:
         self.p_line = p_line
         self.p_seam = p_seam
         self._gap = self._draw_gap() if rng is not None else 0
+        # PCT-style policy (search mode only): tasks get random priorities, the highest
+        # priority runnable task runs, at d random change points the running task is demoted
+        self.pct = False
+        self.change_points: set[int] = set()
+        self.prio: dict[str, float] = {}
+        self._nyield = 0
+
+    def enable_pct(self, depth: int, length: int) -> None:
+        self.pct = True
+        self.change_points = {self.rng.randrange(max(1, length)) for _ in range(depth)}
+
+    def priority(self, name: str) -> float:
+        p = self.prio.get(name)
+        if p is None:
+            p = self.prio[name] = 1.0 + self.rng.random()
+        return p
+
+    def pct_step(self, cur: "Task", cands_fn: Any) -> "Task | None":
+        """Returns the task to switch to at this yield point, or None."""
+        self._nyield += 1
+        if self._nyield in self.change_points:
+            self.prio[cur.name] = -float(self._nyield)  # below everything assigned so far
+        cands = cands_fn()
+        if not cands:
+            return None
+        best = max(cands, key=lambda t: self.priority(t.name))
+        if self.priority(best.name) > self.priority(cur.name):
+            return best
+        return None
+
+    def pct_pick(self, cands: list["Task"]) -> "Task":
+        return max(cands, key=lambda t: self.priority(t.name))
 
     def _draw_gap(self) -> int:
         p = self.p_line
@@ -262,6 +294,14 @@ class Sim:
                     tgt = ch.table.get("%s:%d" % (t.name, t.nyield))
                     if tgt is not None:
                         self._switch_to_named(t, tgt)
+                elif ch.pct:
+                    ch._nyield += 1
+                    if ch._nyield in ch.change_points:
+                        ch._nyield -= 1
+                        tgt2 = ch.pct_step(t, lambda: self._candidates(t))
+                        if tgt2 is not None:
+                            ch.recorded["%s:%d" % (t.name, t.nyield)] = tgt2.name
+                            self._handoff(t, tgt2)
                 elif ch.want_switch(True):
                     self._switch_random(t)
         return self._line
@@ -315,6 +355,11 @@ class Sim:
             tgt = ch.table.get("%s:%d" % (t.name, t.nyield))
             if tgt is not None:
                 self._switch_to_named(t, tgt)
+        elif ch.pct:
+            tgt2 = ch.pct_step(t, lambda: self._candidates(t))
+            if tgt2 is not None:
+                ch.recorded["%s:%d" % (t.name, t.nyield)] = tgt2.name
+                self._handoff(t, tgt2)
         elif ch.want_switch(False):
             self._switch_random(t)
         if t.proc.dead:
@@ -492,7 +537,7 @@ class Sim:
                     else:
                         # prefer ready tasks; choose a sleeper early only sometimes
                         pool = ready if (ready and ch.rng.random() < 0.85) else cands
-                        tgt = ch.pick(pool)
+                        tgt = ch.pct_pick(pool) if ch.pct else ch.pick(pool)
                         default = ready[0] if ready else cands[0]
                         if tgt is not default:
                             ch.recorded[key] = tgt.name
